@@ -142,6 +142,9 @@ impl ErrorMessages {
                 continue;
             };
             let Some(source_path) = sources.source_ids.get(&span.source_id) else {
+                // the span names no file of this source tree (an expression of the std
+                // library): its offsets mean nothing to the caller
+                e.span = None;
                 continue;
             };
 
